@@ -22,8 +22,13 @@ def run(name, tier="quick", prop=None):
 
 
 if __name__ == "__main__":
+    tier_ = "quick"
+    if "--tier" in sys.argv:
+        i_ = sys.argv.index("--tier")
+        tier_ = sys.argv[i_ + 1]
+        del sys.argv[i_:i_ + 2]
     for n in sys.argv[1:]:
         if "@" in n:
-            n, p = n.split("@"); run(n, prop=p)
+            n, p = n.split("@"); run(n, tier=tier_, prop=p)
         else:
-            run(n)
+            run(n, tier=tier_)
